@@ -250,6 +250,26 @@ CLEAN_BLOCKS = [
 ]
 
 
+# words for generated prose blocks: none is (part of) a Twp/Rge or a section reference; several END in the letters of
+# the continuation words ('of', 'in', 'said', 'within') without being them
+PROSE_WORDS = ['That', 'part', 'lying', 'along', 'the', 'river', 'basin', 'thereof', 'aforesaid', 'margin', 'drain', 'hereof',
+               'main', 'channel', 'all', 'accretions', 'portion', 'county', 'road', 'easement', 'plain', 'flood', 'cabin',
+               'thereon', 'within', 'said', 'of', 'in', 'and', 'tract', 'A', 'band', 'wide', 'roof', 'Austin', 'herein',
+               'mountain', 'proof', 'lands', 'upland', 'boundary', 'fence', 'line', 'premises', 'described', 'above']
+NOT_LAST = {'the', 'of', 'in', 'and', 'said', 'within', 'all', 'a'}
+
+
+def rand_block(rng):
+    """a description block: one of the fixed clean blocks, or generated prose that cleanup_desc leaves alone"""
+    if rng.chance(3, 5):
+        return rng.choice(CLEAN_BLOCKS)
+    n = rng.range(2, 7)
+    ws = [rng.choice(PROSE_WORDS) for _ in range(n)]
+    while ws[-1].lower() in NOT_LAST:
+        ws[-1] = rng.choice(PROSE_WORDS)
+    return ' '.join(ws)
+
+
 def rand_abs_desc(rng, max_tr=3, max_sg=3, max_items=3):
     groups = []
     for _ in range(rng.range(1, max_tr)):
@@ -260,7 +280,7 @@ def rand_abs_desc(rng, max_tr=3, max_sg=3, max_items=3):
         sgs = []
         for _ in range(rng.range(1, max_sg)):
             items = rand_items(rng, max_items, 36, allow_desc=False)
-            sgs.append((items, rng.choice(CLEAN_BLOCKS)))
+            sgs.append((items, rand_block(rng)))
         groups.append((t, ns, r, ew, sgs))
     return groups
 
